@@ -29,7 +29,8 @@ RULE = ("Hypothesis draws nested plain values (None, bool, int incl. >2**64, fin
         "value shares a sub-object")
 ASSUMPTIONS = [
     "True/False vs 1/0 (value or key position) and float differences inside rel. 1e-6 are exempt, as the statement says",
-    "instances of subclasses of plain types (int/str/dict subclasses, datetime under date) are not asserted either way",
+    "instances of subclasses of plain types (int/str/dict subclasses) are not asserted either way; a datetime against a date "
+    "(and the reverse) IS asserted to be rejected: no datetime equals a date",
     "NaN is outside the domain (it does not equal itself)",
 ]
 BUDGET = {"quick": (2000, 4), "thorough": (30000, 16)}
@@ -144,8 +145,6 @@ def exempt(a, b):
         if math.isinf(a) or math.isinf(b) or math.isnan(a) or math.isnan(b):
             return False
         return abs(a - b) < 1e-6 * max(abs(a), abs(b))     # relative only (isclose has no absolute part)
-    if isinstance(a, _dt.date) and isinstance(b, _dt.date) and type(a) is not type(b):
-        return True
     if type(a) is not type(b):
         return False
     if isinstance(a, list):
